@@ -119,10 +119,15 @@ def check_selector(sel, trees, part, record=True, mixed=False):
     text = R.render(sel, mixed=mixed)
     falias = [c for c in R.focus_path(sel)[-1].caps if c.focus][0].alias
     events = []
+    kept = []  # raw events of a second probe on the same selector, only read after the tree has run
+    p2 = None
     try:
         p = probing(text, env=dict(tw.funcs))
         p.subscribe(events.append)
         p.__enter__()
+        p2 = probing(text, env=dict(tw.funcs), raw=True)
+        p2.subscribe(kept.append)
+        p2.__enter__()
     except BaseException as e:
         world.reset_context()
         E.reset_tree_world()
@@ -131,6 +136,7 @@ def check_selector(sel, trees, part, record=True, mixed=False):
     try:
         for tree in trees:
             del events[:]
+            del kept[:]
             try:
                 trace = tw.run(tree)
             except BaseException as e:
@@ -159,6 +165,14 @@ def check_selector(sel, trees, part, record=True, mixed=False):
             got = E.group_by_focus(list(events), falias)
             want = [sorted(map(E.canon, g[1])) for g in egroups]
             have = [sorted(map(E.canon, g)) for g in got]
+            if want == have:
+                # an event is a record of the moment it was delivered: the raw events, read now, show the same
+                late = [{k: c.values[-1] for k, c in ev.items() if c.values} for ev in kept]
+                if late != list(events):
+                    part["violations"].append(violation(
+                        PROP, "event-changed-after-delivery", {"selector": text, "tree": [list(map(str, [tree[0]])), list(tree[1]), tree[2]], "tree_repr": repr(tree)},
+                        f"{text} on {CT.describe(tree)}: raw events read after the run show {late!r}; when delivered they were {list(events)!r}",
+                        tags=["event-changed-after-delivery"]))
             if want != have:
                 detail = f"{text} on {CT.describe(tree)}: expected {[g[1] for g in egroups]!r}, delivered {list(events)!r}"
                 kind = "wrong-events"
@@ -169,10 +183,11 @@ def check_selector(sel, trees, part, record=True, mixed=False):
                     kind = "extra-events"
                 part["violations"].append(violation(PROP, kind, {"selector": text, "tree": [list(map(str, [tree[0]])), list(tree[1]), tree[2]], "tree_repr": repr(tree)}, detail, tags=[kind]))
     finally:
-        try:
-            p.__exit__(None, None, None)
-        except BaseException as e:
-            part["violations"].append(violation(PROP, "deactivation", {"selector": text}, f"{type(e).__name__}: {e}", tags=["deactivation"]))
+        for q in (p2, p):
+            try:
+                q.__exit__(None, None, None)
+            except BaseException as e:
+                part["violations"].append(violation(PROP, "deactivation", {"selector": text}, f"{type(e).__name__}: {e}", tags=["deactivation"]))
     E.ensure_clean(tw)
 
 
